@@ -137,6 +137,15 @@ theorem operator_tables_documented :
 
 theorem guards_present : Gen.ExprTables.guards = Guards.all := by decide
 
+/-- The optimizer's traversal is the one `opt` models: class Optimizer defines nothing but `generic_visit` (no per-node
+    rewrites), the evaluation context given to `optimizer.visit(node, frame.eval_ctx)` is forwarded by every child-visit
+    call of the visitor classes (positional and keyword arguments alike) and is what `as_const` receives. -/
+theorem optimizer_traversal_as_modelled :
+    Gen.ExprTables.optimizerMethods = ["__init__", "generic_visit"]
+    ∧ Gen.ExprTables.optimizerForwardsCtx = true
+    ∧ Gen.ExprTables.visitorWalkCalls = (6, 6)
+    ∧ Gen.ExprTables.optimizeconstPassesCtx = true := by decide
+
 theorem compiled_is_reference (hc : C08.Coherent c ae) (optimized : Bool) (e : Expr) :
     compileRender Gen.ExprTables.guards Gen.ExprTables.tables c optimized ae ctx e = renderExpr c ae ctx e := by
   rw [guards_present]
